@@ -246,7 +246,7 @@ def run_readers(tier, funcs, index, enums, res):
         r["bound"] = "%s reader, %d bytes over %d letters, %d chunkings" % (kind, n, len(alpha), len(r["chunkings"]))
         r.pop("chunkings")
         res["runs"].append(r)
-    res["bounds"] = ("whitespace reader: every input of 1..4 bytes over {a, blank, newline, tab, ', \", \\, 0xA0, VT, 0x85} under every way of cutting it into read() results"
+    res["bounds"] = ("whitespace reader: every input of 1..4 bytes over {a, blank, newline, tab, ', \", \\, 0xA0, VT, 0x85, FF, CR} under every way of cutting it into read() results"
                      "%s; byte reader: every input of 1..3 bytes and every delimiter over the same alphabet%s" % (
                          " and 5 bytes over {a, blank, newline, ', \\}" if tier == "thorough" else "", ", 4..5 bytes over 5 letters" if tier == "thorough" else ""))
 
